@@ -2,7 +2,26 @@ package main
 
 const commonAssume = "go/types + go/ssa (x/tools v0.29.0) model the program faithfully; math/big, strconv, strings, fmt behave as documented"
 
+// explainMore: what the rules added after the first version decide (kept apart so that the original
+// texts stay as written).
+var explainMore = map[string]string{
+	"C01": " Also: no rounding decision is taken on a silently truncated machine word (C17.R3).",
+	"C03": " Also: the trap filter of every Context method consults the caller's own trap set (its context or an unedited copy).",
+	"C04": " Also: the tabled digit-stripping loop of Reduce is dominated by a test excluding zero.",
+	"C07": " Also: on both word sizes BigInt's inline array is handled whole (digit counts rely on BitLen).",
+	"C08": " Also: setExponent (which derives flags from Coeff/Exponent) is only reached with a receiver known to be finite, so an infinity's leftover digits are never reported as conditions.",
+	"C09": " Also: quantize rounds its exponent-shifted intermediate value under a private context with the package MinExponent.",
+	"C12": " Also: Exp hands its operand only to exact methods before the 10^t amplification.",
+	"C14": " Also, for Format: the padding width subtracts the lengths of the very sign and buffer written, and zero padding follows the sign.",
+	"C15": " Also: adjusted exponents are compared only where the Sign() tests on every path (or at every call site of a helper) exclude zero operands.",
+	"C16": " Also: the inline word array is handled whole on amd64 and 386; no exported function returns a pointer into a BigInt's storage.",
+	"C17": " Also: Uint64()/Int64() of a BigInt is taken only behind a fit test of that value.",
+	"C18": " Also: no exported function hands out a pointer into an operand's internal storage.",
+	"C19": " Also: the inline array is handled whole on both word sizes and no narrowing conversion is unguarded.",
+}
+
 func prop(id, title string, rules []string, explain string, notDecided []string, assumes ...string) {
+	explain += explainMore[id]
 	registerProperty(&PropertyDef{ID: id, Title: title, Rules: rules, Explain: explain, NotDecided: notDecided,
 		Assumes: append([]string{commonAssume}, assumes...)})
 }
@@ -65,7 +84,7 @@ func init() {
 	prop("C14", "String is the GDA scientific string; parsing accepts exactly its grammar",
 		[]string{"C04.R5", "C14.R2", "C14.R3", "C14.R4", "C14.R5", "C14.R6", "C14.R7", "C14.R8", "C13.R1", "C07.R5"},
 		"Decides: the digit string is sign-free when it reaches BigInt.SetString; special names are alternatives; payload and exponent are validated by strconv with error edges returning errors (base 10, 32 bit); every text entry point goes through the one parser; parse errors return no partial value; plain notation is chosen exactly under exponent ≤ 0 ∧ adjusted ≥ −6 with the documented zero exception; fmtE prints the adjusted exponent.",
-		[]string{"full language equality with the GDA grammar (acceptance of digit strings is delegated to strconv/math/big)", "Format's flag/width layout"})
+		[]string{"full language equality with the GDA grammar (acceptance of digit strings is delegated to strconv/math/big)", "Format's flag/width layout beyond the padding width and the sign-before-zeros order"})
 	prop("C15", "Cmp is the exact numeric order and CmpTotal is the documented total order",
 		[]string{"C15.R1", "C15.R2", "C15.R3", "C15.R4", "C08.R1", "C05.R4"},
 		"Decides: the Form constants have the order CmpTotal relies on and cmpOrder is ±(Form+1); on every path of Decimal.Cmp that returns a coefficient comparison the result is negated exactly for negative operands and the larger-exponent side is the rescaled one; CmpTotal's exponent tie-break flips for negatives (path enumeration); comparisons write nothing; Context.Cmp has the NaN prologue.",
